@@ -18,6 +18,7 @@ import (
 	"sort"
 	"strconv"
 	"sync"
+	"time"
 )
 
 const (
@@ -237,6 +238,9 @@ func Steps(n int)      {}
 func Sched(mode int)   {}
 func MapOrder(mode int) {}
 func Yield()           { runtime.Gosched() }
+
+// Quiesce lets the other goroutines run until they block (natively: approximated by a pause).
+func Quiesce() { time.Sleep(20 * time.Millisecond) }
 func Note(s string)    {}
 func Debug(args ...any) {}
 
